@@ -7,7 +7,10 @@ import (
 	"go/token"
 	"go/types"
 	"os"
+	"runtime"
+	"runtime/debug"
 	"sort"
+	"strconv"
 	"strings"
 	"sync/atomic"
 	"time"
@@ -140,6 +143,29 @@ type pathEnd struct{ reason string }
 type parkReq struct{}
 
 var forkDebug = os.Getenv("VP_FORKS") != ""
+
+// memStop is raised by the memory watchdog: the process stays below the budget (VP_MEM_GB,
+// default 12, heap in use) and reports the truncated exploration as undecided instead of being killed.
+var memStop atomic.Bool
+
+func startMemWatchdog() {
+	limit := uint64(12)
+	if v, err := strconv.Atoi(os.Getenv("VP_MEM_GB")); err == nil && v > 0 {
+		limit = uint64(v)
+	}
+	debug.SetMemoryLimit(int64(limit+limit/4) << 30) // the collector works harder near the budget
+	go func() {
+		var ms runtime.MemStats
+		for {
+			time.Sleep(2 * time.Second)
+			runtime.ReadMemStats(&ms)
+			if ms.HeapAlloc > limit<<30 {
+				memStop.Store(true)
+				return
+			}
+		}
+	}()
+}
 
 type forkReq struct {
 	target ssa.Value
@@ -601,9 +627,13 @@ func (e *Engine) runPath(fr *Frame, st *State, stack *[]work) (Outcome, bool) {
 			fr.ret = e.zeroRet(fr.fn)
 			return Outcome{st: st, ret: fr.ret}, true
 		}
-		if e.stop.Load() {
+		if e.stop.Load() || memStop.Load() {
 			e.rep.PathBudgetHit = true
-			e.note("deadline reached: exploration truncated")
+			if memStop.Load() {
+				e.note("memory budget reached: exploration truncated")
+			} else {
+				e.note("deadline reached: exploration truncated")
+			}
 			return Outcome{}, false
 		}
 		st.steps++
